@@ -435,8 +435,8 @@ REGISTRY = {
         "claim": "Decides the drop/ownership discipline of the MaybeUninit representation (every slot kept or consumed "
                  "exactly once on every syntactic path of every per-slot loop; iterator cursor; ownership transfer) and "
                  "the union-discriminant discipline (payload and tag only touched in the branch a size<=N test selects). "
-                 "These are necessary conditions of 'every element dropped exactly once' and of memory-safe access; "
-                 "content equivalence with Vec under all histories is not decided.",
+                 "These are necessary conditions of 'every element dropped exactly once' and of memory-safe access; of the content clause only "
+                 "the slots compared by the inline dedup test are decided (SV-DEDUP); content equivalence with Vec under all histories is not.",
         "note": "Trusted: the syn parser; std's Vec for the heap representation; the loop invariant j <= i of the compaction "
                 "loops is derived from the checked prologue (size reset to the loop's first index) and at-most-one increment per path.",
         "explanation": "Static typestate / representation-discipline analysis of src/smallvec.rs: SV-DISPOSE enumerates every "
